@@ -24,8 +24,9 @@ import (
 func init() { runners["C03"] = runC03 }
 
 // allocBudget: what a decoder may allocate for an input of n octets: proportional to the input plus
-// a constant (struct, 255 destination slots) plus 64 KiB for one unchecked optional-parameter value.
-func allocBudget(n int) uint64 { return uint64(64*n) + 256*1024 }
+// a constant (the PDU structure, reader, up to 255 destination slots).  A 64 KiB buffer made for an
+// optional-parameter value whose 16-bit length has not been checked against the input is over it.
+func allocBudget(n int) uint64 { return uint64(64*n) + 16*1024 }
 
 // measured runs f on this goroutine with a watchdog; it reports panic, duration and allocation.
 func measured(f func()) (panicMsg string, dur time.Duration, alloc uint64) {
@@ -128,6 +129,16 @@ func runC03(res *Result, d *Driver, g *Rng, tier string) {
 						big = true
 					}
 				}
+				// … and 16-bit lengths in the optional-parameter tail
+				tail0 := len(im) - 24
+				if tail0 < 0 {
+					tail0 = 0
+				}
+				for pos := tail0; pos+2 <= len(im); pos++ {
+					if binary.BigEndian.Uint16(im[pos:]) >= 0x1000 {
+						big = true
+					}
+				}
 				if big || k%50 == 0 {
 					p2 := registry[name]()
 					in2 := append([]byte(nil), im...)
@@ -138,7 +149,9 @@ func runC03(res *Result, d *Driver, g *Rng, tier string) {
 				if len(im) < mand && len(im) <= len(img) && string(im) == string(img[:len(im)]) {
 					res.Count("decode:cut-inside-mandatory-part")
 				}
-				if len(im) < mand && len(im) <= len(img) && string(im) == string(img[:len(im)]) && err == nil {
+				// SMPP 3.4: a bind / submit_sm response with a non-zero command_status has no body: the bare header is complete
+				bareErrResp := errorResponseNoBody[name] && len(im) == 16 && binary.BigEndian.Uint32(im[8:]) != 0
+				if len(im) < mand && len(im) <= len(img) && string(im) == string(img[:len(im)]) && err == nil && !bareErrResp {
 					res.Violate("C03.truncated-accepted:"+name, fmt.Sprintf("the image ends after %d of %d mandatory octets but IDecode reports success", len(im), mand), []string{decOp})
 				}
 				if k%23 == 0 && len(im) < 3000 {
